@@ -124,7 +124,7 @@ func VF_C14_Effect() {
 		sent := 0
 		for step := 0; step < 3; step++ {
 			size := x.Size()
-			switch vf.Choice("op", 3) {
+			switch vf.Choice("op", 5) {
 			case 0:
 				_, e = x.Insert(vf.Int("pos", 0, size), "i"+string(rune('0'+step)))
 			case 1:
@@ -137,6 +137,16 @@ func VF_C14_Effect() {
 					vf.Assume(false)
 				}
 				_, e = x.Delete(vf.Int("pos", 0, size-1))
+			case 3: // a range of two (may span a tombstone left by an earlier step)
+				if size < 2 {
+					vf.Assume(false)
+				}
+				_, e = x.DeleteMany(vf.Int("pos", 0, size-2), 2)
+			case 4:
+				if size < 2 {
+					vf.Assume(false)
+				}
+				_, e = x.Update(vf.Int("pos", 0, size-2), "v"+string(rune('0'+step)), "w"+string(rune('0'+step)))
 			}
 			vf.Assert(e == nil, "C03 valid call succeeds")
 			ops := x.CreatePushPullPack().Operations
@@ -157,7 +167,7 @@ func VF_C14_Effect() {
 	for step := 0; step < 3; step++ {
 		arr := child(x, "arr")
 		size := vf.Concretize(arr.snapshot().(*jsonArray).size)
-		switch vf.Choice("op", 3) {
+		switch vf.Choice("op", 5) {
 		case 0:
 			_, e = arr.InsertToArray(vf.Int("pos", 0, size), "i"+string(rune('0'+step)))
 		case 1:
@@ -170,6 +180,16 @@ func VF_C14_Effect() {
 				vf.Assume(false)
 			}
 			_, e = arr.DeleteInArray(vf.Int("pos", 0, size-1))
+		case 3:
+			if size < 2 {
+				vf.Assume(false)
+			}
+			_, e = arr.DeleteManyInArray(vf.Int("pos", 0, size-2), 2)
+		case 4:
+			if size < 2 {
+				vf.Assume(false)
+			}
+			_, e = arr.UpdateManyInArray(vf.Int("pos", 0, size-2), "v"+string(rune('0'+step)), "w"+string(rune('0'+step)))
 		}
 		vf.Assert(e == nil, "C03 valid call succeeds")
 		ops := x.CreatePushPullPack().Operations
